@@ -48,7 +48,9 @@ def toy_record(rng, cfg, seq0, kex, nmsgs):
     s._initial_kex_done = kex
     s._Packetizer__sequence_number_out = seq0
     install_out(s, cfg)
-    payloads = [gen_payload(rng, cfg["bs"], 60) for _ in range(nmsgs)]
+    payloads = [gen_payload(rng, cfg["bs"], 60) if rng.random() < 0.7
+                else bytes(rng.randrange(256) for _ in range(rng.randrange(1, 8)))      # fits in the first block
+                for _ in range(nmsgs)]
     wires = []
     sent = []
     with PinnedUrandom(rng):
@@ -290,6 +292,57 @@ def real_large(ctx, suite):
         start += n
 
 
+def real_small_grid(ctx):
+    """Every payload size 1 .. 2 blocks + 1 x every cipher / MAC family: the packet (incl. those that fit in the
+    first cipher block, packets of exactly one and two blocks, ...) is followed by a trailer message; every byte
+    of the first packet (sampled for the larger ones in the quick tier) is flipped: nothing may be delivered."""
+    from paramiko.packet import Packetizer
+    from paramiko.transport import Transport
+    rng = ctx.rng
+    suites = real_suites()
+    if ctx.thorough:
+        grid = suites
+    else:
+        cs = ["aes128-ctr", "aes256-cbc", "3des-cbc"]
+        ms = ["hmac-sha1-96", "hmac-sha2-256", "hmac-md5", "hmac-sha2-512-etm@openssh.com", "hmac-sha1",
+              "hmac-sha2-256-etm@openssh.com", "hmac-md5-96", "hmac-sha2-512"]
+        grid = [(c, ms[(i * 3 + j + ctx.seed) % len(ms)]) for i, c in enumerate(cs) for j in range(3)]
+        grid = [g for g in grid if g in suites] + [su for su in suites if su[1] is None][:1]
+        # every MAC of the table appears at least once across the cipher families
+        seen = {g[1] for g in grid}
+        grid += [(cs[k % len(cs)], m) for k, m in enumerate(ms) if m not in seen and (cs[k % len(cs)], m) in suites]
+    for suite in grid:
+        bs = Transport._cipher_info[suite[0]]["block-size"]
+        keys = real_keys(rng, suite)
+        for n in range(1, 2 * bs + 2):
+            cap = CaptureSocket()
+            s = Packetizer(cap)
+            s._initial_kex_done = True
+            seq0 = rng.choice([0, 7, 2 ** 32 - 1])
+            s._Packetizer__sequence_number_out = seq0
+            real_install(s, suite, keys, True, False)
+            payloads = [bytes([rng.randrange(1, 256)]) + rng.randbytes(n - 1), bytes([rng.randrange(1, 256)]) + b"tr"]
+            wires = []
+            for pl in payloads:
+                n0 = len(cap.sent)
+                s.send_message(mkmsg(pl))
+                wires.append(b"".join(cap.sent[n0:]))
+            rec = {"suite": suite, "zlib": False, "keys": keys, "seq0": seq0, "sent": payloads, "wires": wires}
+            stream = b"".join(wires)
+            w0 = len(wires[0])
+            if ctx.thorough or n <= bs:
+                pos = range(w0)
+            else:
+                pos = sorted({0, 3, 4, 5, bs - 1, bs, w0 - 1} | {rng.randrange(w0) for _ in range(5)})
+            if n in (1, bs, 2 * bs + 1) and not check_real(ctx, rec, stream, ("none", n)):
+                return
+            for i in pos:
+                v = stream[i] ^ (1 << rng.randrange(8))
+                if not check_real(ctx, rec, stream[:i] + bytes([v]) + stream[i + 1:], ("flip-small", n, i),
+                                  max_delivered=0):
+                    return
+
+
 def hmac_oracle(ctx):
     """packet.compute_hmac must be HMAC over the whole message (stdlib reference), any length."""
     import hmac
@@ -402,6 +455,7 @@ def run(ctx):
 
     hmac_oracle(ctx)
     replay_across_epochs(ctx)
+    real_small_grid(ctx)
     real_search(ctx)
     ctx.exhaustive = False
 
